@@ -423,8 +423,10 @@ def model_request(a):
             return None
         return dict(p='C01', op='unit', vals=vals, reprs=[repr(v) for v in vals])
     if cls in OVERRIDE_KW:
-        nums = [t for t in a['params'] if t[0].isdigit() or t[0] in '+-']
-        words = [t for t in a['params'] if not (t[0].isdigit() or t[0] in '+-')]
+        # numbers by meaning (any free-format spelling: `.5`, `-.5`, `+4`), not by their first character
+        isnum = lambda t: t[0].isdigit() or t[0] in '+-' or num(t) is not None
+        nums = [t for t in a['params'] if isnum(t)]
+        words = [t for t in a['params'] if not isnum(t)]
         vals = [num(t) for t in nums]
         if any(v is None for v in vals):
             return None
@@ -915,6 +917,23 @@ def form_file(rng, kw, form, ln):
     return dict(lines=base + gen.wrap_legal(rng, ln) + ['FVAR 0.5'] + atoms + ['HKLF 4', 'END'], tags=[f'form:{kw}:{form}'])
 
 
+def respell_line(rng, ln):
+    """the same instruction with its numbers in other free-format spellings SHELXL reads alike: no zero in front of the
+    decimal point (`.5`, `-.5`), an explicit plus sign (`+0.5`, `+.5`, `+4`)"""
+    toks = ln.split()
+    out = [toks[0]]
+    for t in toks[1:]:
+        if NUM_RE.match(t) and 'e' not in t.lower():
+            if t.startswith('-0.') and len(t) > 3:
+                t = rng.choice(['-' + t[2:], t])
+            elif t.startswith('0.') and len(t) > 2:
+                t = rng.choice([t[1:], '+' + t[1:], '+' + t])
+            elif t[0].isdigit():
+                t = rng.choice([t, '+' + t])
+        out.append(t)
+    return ' '.join(out)
+
+
 FIXED_CASES = [
     # witnesses of the Lean file (…_fails_on) and the defects seen while reading; replayed in every run
     dict(lines=['TITL w', 'CELL 0.71073 10 11 12 90 95 90', 'ZERR 4 0.001 0.001 0.001 0 0.01 0', 'LATT -1',
@@ -963,6 +982,16 @@ def run(ctx):
     for f, r in zip(forms, res):
         if r and f[0] != 'HKLF':
             ok_forms.append(f)
+    # the forms that parse, once more with their numbers in other free-format spellings (`-.5`, `+.25`, `+4`): same content
+    respelt = []
+    for f in ok_forms:
+        ln = respell_line(rng, f[2])
+        if ln != f[2]:
+            c = form_file(rng, f[0], f[1], ln)
+            c['tags'] = c['tags'] + ['respelt']
+            respelt.append(c)
+    evaluate(ctx, respelt)
+    ctx.extra['forms_respelt'] = len(respelt)
     ctx.extra['forms_total'] = len(forms)
     ctx.extra['forms_parsed_to_end'] = len(ok_forms) + sum(1 for f in forms if f[0] == 'HKLF')
     ctx.extra['forms_skipped'] = sorted({f'{f[0]}:{f[1]}' for f in forms if f not in ok_forms and f[0] != 'HKLF'})
